@@ -255,6 +255,38 @@ def diagnose(ctx, kind, term, variant):
 TEMPI = [[1, 2], [1, 1], [2, 1], [4, 1]]
 
 
+EXC_TYPES = ['StopIteration', 'StopIterationSub', 'StopStreamSub', 'KeyError', 'ValueError', 'ZeroDivisionError',
+             'AttributeError', 'Custom', 'AssertionError', 'OSError']
+
+
+def gen_exceptions(kind, idx):
+    """one task per exception type a task can raise (StopIteration and its subclasses, StopStream subclass = 'done',
+    ordinary ones); every raising wake-up must produce exactly one error record of the clock carrying that exception,
+    the 'done' protocol (StopStream) none; the clock goes on (last task runs)"""
+    tasks = {str(i + 1): {'results': [['exc', e]]} for i, e in enumerate(EXC_TYPES)}
+    n = len(EXC_TYPES)
+    tasks[str(n + 1)] = {'results': [['stop']]}
+    tasks[str(n + 2)] = {'results': [['none']]}
+    th = [['sched', i + 1, 1 + (i % 3), 64] for i in range(n + 1)] + [['sched', n + 2, 5, 64]]
+    wc = {str(i + 1): 1 for i in range(n + 2)}
+    return {'name': '%s-exception-types' % kind, 'clock': kind, 'index': idx, 'tempo': [1, 1], 'tasks': tasks,
+            'threads': [th], 'final': 'clear', 'wait_counts': wc, 'before_final': 5.0, 'after_final': 0.02, 'expect_counts': wc}
+
+
+def gen_same_callable(rng, kind, idx):
+    """the same PLAIN function (wrapped anew by every sched call) scheduled several times while earlier schedulings are
+    pending, from two threads and at distinct and equal times: every call is a separate scheduling -> one wake-up each"""
+    k1, k2 = rng.randint(2, 4), rng.randint(2, 4)
+    op = 'sched'
+    t1 = [[op, 1, rng.choice([2, 4, 4, 6, 8]), 64] for _ in range(k1)] + [[op, 2, 4, 64]]
+    t2 = [[op, 2, rng.choice([3, 4, 4, 7]), 64] for _ in range(k2 - 1)] + [[op, 1, 4, 64]]
+    wc = {'1': k1 + 1, '2': k2}
+    return {'name': '%s-same-callable-%d' % (kind, idx), 'clock': kind, 'index': idx, 'tempo': [1, 1],
+            'tasks': {'1': {'plain': True, 'results': []}, '2': {'plain': True, 'results': []}},
+            'threads': [t1, t2], 'final': 'clear', 'wait_counts': wc, 'before_final': 5.0, 'after_final': 0.1,
+            'expect_counts': wc}
+
+
 def wrap_via(rng, kind, inner):
     """perform inner from: this client thread, a task of another clock, or the OSC receive path"""
     vias = ['thread', 'osc', 'aux'] + [v for v in ('sys', 'app') if v != kind]
@@ -492,7 +524,8 @@ def gen_stress(rng, kind, idx, heavy=False):
         results = [rng.choice([['delta', rng.choice([0, 1, 1, 2, 3]), 64], ['delta', rng.choice([0, 1, 2]), 64],
                                ['num', 'i0'], ['num', 'f0'], ['num', 'nf0'], ['delta', -1, 64]]) for _ in range(nres)]
         results.append(rng.choice([['none'], ['none'], ['raise'], ['raise'], ['stop'], ['str'], ['bool'],
-                                   ['num', 'false'], ['num', 'true'], ['num', 'empty'], ['num', 'list']]))
+                                   ['num', 'false'], ['num', 'true'], ['num', 'empty'], ['num', 'list'],
+                                   ['exc', rng.choice(EXC_TYPES)], ['exc', rng.choice(EXC_TYPES)]]))
         nested = []
         if rng.random() < 0.3:
             ops = []
@@ -510,6 +543,8 @@ def gen_stress(rng, kind, idx, heavy=False):
         tasks[str(tid)] = {'results': results, 'nested': nested}
         if rng.random() < 0.15:
             tasks[str(tid)] = {'routine': rng.randint(0, 2), 'yield': [rng.randint(0, 2), 64], 'slow': rng.choice([0, 20, 60])}
+        elif rng.random() < 0.1:
+            tasks[str(tid)] = {'plain': True, 'results': results}
         elif rng.random() < 0.12:
             tasks[str(tid)] = {'rscript': rng.choice([[['self_next']], [['yield', 1, 64], ['self_next']], [['yield', 0, 64], ['raise']],
                                                       [['yield', 1, 64], ['stop']], [['raise']]])}
@@ -651,6 +686,12 @@ def program(ctx, rng):
     for kind, where in (('tempo', 'sys'), ('tempo', 'aux'), ('tempo', 'same'), ('sys', 'aux'), ('sys', 'same')):
         idx += 1
         p1.append(gen_sched_during_routine(kind, where, idx))
+    for kind in ('sys', 'tempo', 'app'):
+        idx += 1
+        p1.append(gen_exceptions(kind, idx))
+        for _ in range(ctx.n(1, 4)):
+            idx += 1
+            p1.append(gen_same_callable(rng, kind, idx))
     hows = ['self_next', 'nested_raise', 'nested_raise_after_yield', 'raise_after_yield', 'self_next_after_yield']
     for j, kind in enumerate(('sys', 'tempo', 'app')):
         for how in (hows if not ctx.quick else [hows[j], hows[(j + 3) % 5]]):
@@ -827,6 +868,12 @@ def e2e(sc, r):
         if len(order) == len(sc['fifo']) and order != sc['fifo']:
             v.append(('ready_popped_in_time_then_fifo_order', '%s: tasks scheduled for the same time in the order %s were awakened in '
                       'the order %s' % (sc['name'], sc['fifo'], order)))
+    if r.get('raised') is not None and r.get('logged') is not None and r['raised'] != r['logged']:
+        from collections import Counter
+        miss = Counter(r['raised']) - Counter(r['logged'])
+        extra = Counter(r['logged']) - Counter(r['raised'])
+        v.append(('exception_logged', '%s: exceptions raised by task wake-ups and error records of the clocks differ: '
+                  'raised but NOT logged: %s; logged but not raised: %s' % (sc['name'], dict(miss), dict(extra))))
     for what in r.get('leak') or []:
         v.append(('exception_isolated', '%s: global state leaked after the scenario: %s' % (sc['name'], what)))
     if r.get('responsive') is False:
@@ -1034,6 +1081,8 @@ def search(ctx, failures):
         for how in ('self_next', 'nested_raise_after_yield', 'self_next_after_yield'):
             idx += 1
             scs.append(gen_after_routine_failure(kind, how, idx))
+        idx += 1
+        scs.append(gen_same_callable(rng, kind, idx))
     found, seen = [], set()
     for f in failures:
         sc = f.replay.get('scenario') if isinstance(f.replay, dict) else None
